@@ -10,6 +10,7 @@ import PasskeyVerif.Driver.Client
 import PasskeyVerif.Driver.Secrets
 import PasskeyVerif.Driver.U2f
 import PasskeyVerif.Driver.Concurrent
+import PasskeyVerif.Driver.Decoders
 open PasskeyVerif
 
 structure DriverState where
@@ -34,6 +35,7 @@ def stepLine (st : DriverState) (line : String) : DriverState × String :=
     else if tok.startsWith "cl." then
       let (a, out) := Driver.Client.step st.au op impl
       ({ st with au := a }, out)
+    else if tok.startsWith "dec." then (st, Driver.Decoders.step op impl)
     else if tok.startsWith "cc." then
       let (a, c, out) := Driver.Concurrent.step st.au st.cc op impl
       ({ st with au := a, cc := c }, out)
